@@ -1,6 +1,6 @@
 // Native (cfg verif_replay) units for C06 / the Lexer -- NOT proof.
 //  * verif_native_lexer_token_witness: witness search used when a Verus obligation of unit lexer_tok fails: every text of
-//    length <= 5 over a 13-character alphabet is tokenised by the real Lexer; identifier and number tokens must end at a
+//    length <= 5 over a 14-character alphabet is tokenised by the real Lexer; identifier and number tokens must end at a
 //    delimiter (or the end of the text), an identifier's / a real's text must be the characters it was read from, and
 //    replacing every blank by other atmosphere (tab + newline, or a comment line) must not change the token data.
 //  * verif_native_hash_token_known: demonstrates the KNOWN FINDING hash-token-not-delimited ("#t1" is two tokens).
@@ -17,7 +17,7 @@ fn lex(text: &str) -> Vec<std::result::Result<(TokenData, usize), String>> {
         .collect()
 }
 
-const ALPHABET: [char; 13] = ['1', 'a', '/', 'e', '.', '+', '(', ')', ' ', 'x', '0', '-', '"'];
+const ALPHABET: [char; 14] = ['1', 'a', '/', 'e', '.', '+', '(', ')', ' ', 'x', '0', '-', '"', '\''];
 
 #[test]
 fn verif_native_lexer_token_witness() {
